@@ -222,6 +222,30 @@ class ChargeDriver(InstructionGenerator):
         return self, tuple(out)
 
 
+class FixedPlan(InstructionGenerator):
+    """a controller that builds its instructions ONCE and hands the very same instruction objects to the simulator step
+    after step (a fixed plan): legal - instructions are immutable values"""
+
+    def __init__(self, seed: int):
+        self.seed = seed
+        self.cache: Dict[str, Any] = {}
+
+    @property
+    def name(self) -> str:
+        return "FixedPlan"
+
+    def generate_instructions(self, simulation_state, environment):
+        sim = simulation_state
+        rng = random.Random(f"{self.seed}:plan:{int(sim.sim_time)}")
+        out = []
+        for v in sim.get_vehicles():
+            if v.id not in self.cache:
+                self.cache[v.id] = IdleInstruction(v.id)
+            if rng.random() < 0.5:
+                out.append(self.cache[v.id])
+        return self, tuple(out)
+
+
 class CountingGenerator(InstructionGenerator):
     """a STATEFUL controller in the functional style hive expects: it returns an updated copy of itself every step and
     acts on every third call (repositions the first idle vehicle).  Splitting a run must carry its state along."""
